@@ -493,12 +493,42 @@ class SymArr:
 
     def copy(self):
         fn = self.fn
-        return SymArr(self.shape, fn, self.kind, self.pylist, name=self.name)
+        r = SymArr(self.shape, fn, self.kind, self.pylist, name=self.name)
+        for a in ("as_type", "mem", "inv", "func", "psum"):
+            if hasattr(self, a):
+                setattr(r, a, getattr(self, a))
+        return r
 
     clone = copy
 
     def detach(self):
         return self
+
+    device = "cpu"
+
+    @property
+    def dtype(self):
+        return {"int": "int64", "real": "float", "bool": "bool", "complex": "complex"}.get(self.kind, self.kind)
+
+    def long(self):
+        r = self.copy()
+        r.kind = "int"
+        if hasattr(self, "as_type"):
+            r.as_type = self.as_type
+        return r
+
+    def float(self):
+        return self
+
+    def contiguous(self):
+        return self
+
+    @property
+    def T(self):
+        if self.ndim != 2:
+            raise OutOfSubset(".T on non-2d symbolic array")
+        src = self
+        return SymArr((self.shape[1], self.shape[0]), lambda i, j: src.fn(j, i), self.kind, base=self.base)
 
     def cpu(self):
         return self
